@@ -20,6 +20,7 @@ structure Parsed where
   args : Option (Option Json)     -- none: absent; some none: not JSON; some (some j)
   more : Bool
   frames : List Msg
+  hold : Bool := false            -- the service keeps the connection open after the frames
 
 def parseArgs : Sx → Option (Option (Option Json))
   | .atom "-" => some none
@@ -28,12 +29,14 @@ def parseArgs : Sx → Option (Option (Option Json))
   | _ => none
 
 def parseCase : Sx → Option Parsed
-  | .list [.atom "cli", .atom form, listen, url, args, .atom more, _, .list (.atom "frames" :: fs)] => do
+  | .list (.atom "cli" :: .atom form :: listen :: url :: args :: .atom more :: _ :: .list (.atom "frames" :: fs) :: _) => do
     let listen ← asStr listen
     let url ← asStr url
     let args ← parseArgs args
-    let fs ← fs.mapM ClientDrv.parseFrame
-    pure { form, listen, url, args, more := more == "t", frames := fs.flatten }
+    let isHold : Sx → Bool := fun f => match f with | .atom "hold" => true | _ => false
+    let hold := fs.any isHold
+    let fs ← (fs.filter fun f => !isHold f).mapM ClientDrv.parseFrame
+    pure { form, listen, url, args, more := more == "t", frames := fs.flatten, hold }
   | _ => none
 
 /-- `varlink_connect` drops `;parameters` of unix addresses -/
@@ -48,6 +51,7 @@ def ofReport : Option Cli.Report → Sx
 
 def obs (conns : Nat) (resolver : Option String) (log : List Request) (out : List Json) (exit : Sx) (report : Sx) : Sx :=
   .list [.atom "cli-obs", .list [.atom "conns", .atom (toString conns)],
+    .list [.atom "decoy", .atom "0"],
     .list [.atom "resolver", ofOptStr resolver],
     .list (.atom "log" :: log.map ClientDrv.ofReq),
     .list (.atom "stdout" :: out.map ofJson), .atom "t", exit, report]
@@ -55,7 +59,7 @@ def obs (conns : Nat) (resolver : Option String) (log : List Request) (out : Lis
 def msg (c : String) : Sx := .list [.atom "msg", .atom c]
 
 def runCase (c : Parsed) : Sx :=
-  let peer : Peer := fun log _ => if log.isEmpty then (c.frames, true) else ([], false)
+  let peer : Peer := fun log _ => if log.isEmpty then (c.frames, !c.hold) else ([], false)
   let call (method : String) (resolver : Option String) : Sx :=
     match c.args with
     | some none => obs 1 resolver [] [] (.atom "1") (msg "parse-args")
@@ -88,16 +92,18 @@ def parseReport : Sx → Option (Option Cli.Report × Bool)
 
 def pred (cs os : Sx) : Cli.Verdict :=
   match parseCase cs, os with
-  | some c, .list [.atom "cli-obs", .list [.atom "conns", n], _, .list (.atom "log" :: log),
+  | some c, .list [.atom "cli-obs", .list [.atom "conns", n], .list [.atom "decoy", dn], _, .list (.atom "log" :: log),
                    .list (.atom "stdout" :: docs), clean, exit, report] =>
     match asNat n, docs.mapM toJson, parseReport report with
     | some n, some docs, some (rep, other) =>
+      if asNat dn != some 0 then some "call-went-to-a-neighbouring-service (argument not split at the last slash)" else
       let (lg, raw) := ClientDrv.parseLog log
       match c.args with
       | some none => if docs.isEmpty && asNat exit != some 0 then none else some "output-or-exit-0-with-unparsable-arguments"
       | args =>
         Cli.P_C20 { url := c.url, args := (match args with | some (some j) => some j | _ => none), more := c.more, frames := c.frames,
-                    listening := c.form == "path" || c.form == "abstract" || c.form == "tcp", listen := c.listen }
+                    listening := c.form == "path" || c.form == "abstract" || c.form == "tcp", listen := c.listen,
+                    hold := c.hold }
           { conns := n, log := lg, rawLog := raw, stdout := docs,
             clean := (match clean with | .atom "t" => true | _ => false),
             exit := asNat exit, report := rep, otherMsg := other }
